@@ -327,6 +327,121 @@ func checkC13(c *Ctx) {
 			}
 		}
 	})
+	// auto-refresh mode: a Spec file is repaired (or broken) while the cache is being
+	// constructed or reconfigured, from inside the scan, after the scan has read it
+	c.RunCases("during-setup", c.pick(24, 300), 4, func(cs *Case) {
+		r := cs.R
+		root := filepath.Join(c.Scratch, sanitize(cs.Name))
+		anchor, d := filepath.Join(root, "anchor"), filepath.Join(root, "d")
+		must(os.MkdirAll(anchor, 0o755))
+		must(os.MkdirAll(d, 0o755))
+		defer os.RemoveAll(root)
+		good := func(dev string) []byte {
+			return []byte(fmt.Sprintf(`{"cdiVersion":"0.6.0","kind":"vendor.com/gpu","devices":[{"name":"%s","containerEdits":{"env":["A=b"]}}]}`, dev))
+		}
+		badContent := []byte(pickStr(r, "{", "", `{"cdiVersion":"0.6.0","kind":"vendor.com/gpu","devices":[]}`))
+		first, last := filepath.Join(d, "a-first.json"), filepath.Join(d, "z-last.json")
+		repair := chance(r, 50) // else: a good file is broken
+		if repair {
+			must(os.WriteFile(first, badContent, 0o644))
+		} else {
+			must(os.WriteFile(first, good("first"), 0o644))
+		}
+		must(os.WriteFile(last, good("last"), 0o644))
+		var armed atomic.Bool
+		unhook := hookPrefix(root, func(point, arg string, _ int) {
+			if point == "scan.beforeRead" && arg == last && armed.CompareAndSwap(true, false) {
+				// (the scan has read a-first.json by now)
+				if repair {
+					os.WriteFile(first, good("first"), 0o644)
+				} else {
+					os.WriteFile(first, badContent, 0o644)
+				}
+			}
+		})
+		defer unhook()
+		dirs := []string{anchor, d}
+		how := pickStr(r, "NewCache", "Configure")
+		var a *autoCache
+		var err error
+		if how == "NewCache" {
+			armed.Store(true)
+			a, err = newAutoCache(root, anchor, dirs)
+		} else {
+			a, err = newAutoCache(root, anchor, []string{anchor})
+			if err == nil {
+				armed.Store(true)
+				a.C.Configure(cdi.WithSpecDirs(dirs...))
+			}
+		}
+		if err != nil {
+			c.Inconclusive("no-inotify")
+			return
+		}
+		defer a.Close()
+		if armed.Load() {
+			c.Inconclusive("scan-hook-not-reached")
+			return
+		}
+		if !a.Quiesce() {
+			c.Inconclusive("quiesce-timeout")
+			return
+		}
+		rerr := a.C.Refresh()
+		errs := a.C.GetErrors()
+		dev := a.C.GetDevice("vendor.com/gpu=first")
+		c.Count("files_changed_during_the_setup_scan", 1)
+		if repair && (rerr != nil || len(errs[first]) > 0 || dev == nil) {
+			cs.Violation("stale-error", map[string]string{"mode": "auto", "shape": "repaired-during-" + how}, fmt.Sprintf("a Spec file in error was repaired while %s was scanning (after the scan had read it); afterwards Refresh() = %v, its error entry: %v, its device resolves: %v", how, rerr, errs[first], dev != nil), nil)
+		}
+		if !repair && (rerr == nil || len(errs[first]) == 0 || dev != nil) {
+			cs.Violation("not-reported", map[string]string{"mode": "auto", "shape": "broken-during-" + how}, fmt.Sprintf("a valid Spec file was replaced by invalid content while %s was scanning (after the scan had read it); afterwards Refresh() = %v, its error entry: %v, its device still resolves: %v", how, rerr, errs[first], dev != nil), nil)
+		}
+	})
+	// auto-refresh mode: a configured directory that was missing appears, holding a good
+	// and a bad Spec file; the first thing asked of the cache is the explicit refresh
+	c.RunCases("appears", c.pick(24, 300), 4, func(cs *Case) {
+		r := cs.R
+		root := filepath.Join(c.Scratch, sanitize(cs.Name))
+		anchor, late, staging := filepath.Join(root, "anchor"), filepath.Join(root, "late"), filepath.Join(root, "staging")
+		must(os.MkdirAll(anchor, 0o755))
+		must(os.MkdirAll(staging, 0o755))
+		defer os.RemoveAll(root)
+		must(os.WriteFile(filepath.Join(staging, "good.json"), []byte(`{"cdiVersion":"0.6.0","kind":"vendor.com/gpu","devices":[{"name":"g","containerEdits":{"env":["A=b"]}}]}`), 0o644))
+		bad := pickStr(r, "{", "", "cdiVersion: 0.6.0\nkind: vendor.com/gpu\ndevices: []\n", `{"cdiVersion":"9.9.9","kind":"vendor.com/gpu","devices":[{"name":"x","containerEdits":{"env":["A=b"]}}]}`)
+		must(os.WriteFile(filepath.Join(staging, pickStr(r, "bad.json", "bad.yaml", "a-bad.json")), []byte(bad), 0o644))
+		dirs := []string{anchor, late}
+		if chance(r, 50) {
+			dirs = []string{late, anchor}
+		}
+		a, err := newAutoCache(root, anchor, dirs)
+		if err != nil {
+			c.Inconclusive("no-inotify")
+			return
+		}
+		defer a.Close()
+		if chance(r, 50) {
+			a.C.ListDevices()
+		}
+		must(os.Rename(staging, late))
+		first := pickStr(r, "Refresh", "Refresh", "GetErrors-after-Refresh")
+		rerr := a.C.Refresh()
+		errs := a.C.GetErrors()
+		c.Count("refreshes_as_first_use_after_a_directory_appeared", 1)
+		var badKeys []string
+		for k := range errs {
+			if filepath.Dir(k) == late {
+				badKeys = append(badKeys, k)
+			}
+		}
+		if rerr == nil || len(badKeys) != 1 {
+			cs.Violation("not-reported", map[string]string{"mode": "auto", "shape": "directory-appears"}, fmt.Sprintf("a missing configured directory appeared with a good and a bad Spec file; the explicit refresh right afterwards (%s) returns %v and the error report has %v for that directory", first, rerr, badKeys), map[string]any{"dirs": dirs, "bad_content": bad})
+			return
+		}
+		if a.C.GetDevice("vendor.com/gpu=g") == nil {
+			cs.Violation("isolation", map[string]string{"mode": "auto", "shape": "directory-appears"}, "the good Spec file of the directory that appeared does not resolve", nil)
+		}
+	})
 	// the package-level default cache, whose first use in a process is the explicit
 	// refresh (or a look at the errors, or a Configure): the same contract
 	exeD, _ := os.Executable()
